@@ -3,6 +3,8 @@
 package crypto
 
 import (
+	"crypto/sha512"
+	"encoding/binary"
 	"fmt"
 	"sort"
 	"testing"
@@ -130,6 +132,71 @@ func vpC14VerifyMustFail(t *rapid.T, what string, sig *Signature, publics []*Key
 	}
 }
 
+// vpC14SmallOrder: encodings of curve points nobody holds a private key for
+// (identity, the point of order 2, a point of order 4).
+var vpC14SmallOrder = [][32]byte{
+	{1},
+	{0xec, 0xff, 0xff, 0xff, 0xff, 0xff, 0xff, 0xff, 0xff, 0xff, 0xff, 0xff, 0xff, 0xff, 0xff, 0xff, 0xff, 0xff, 0xff, 0xff, 0xff, 0xff, 0xff, 0xff, 0xff, 0xff, 0xff, 0xff, 0xff, 0xff, 0xff, 0x7f},
+	{},
+}
+
+// vpC14LoneForgery: the holder of the private key at index i alone signs for
+// the signer set {i, j} of a vector whose key at j is the small-order point T,
+// betting that T's weighted contribution to the aggregate key vanishes. All
+// arithmetic is the library's; the transcript and coefficient layout are the
+// published ones (count, then index||key per signer; SHA-512 with the domain
+// strings).
+func vpC14LoneForgery(publics []*Key, i, j int, yi *Key, T [32]byte, nonce []byte, msg Hash) (*Signature, []*Key, []int, bool) {
+	vec := append([]*Key{}, publics...)
+	tk := Key(T)
+	vec[j] = &tk
+	signers := []int{i, j}
+	sort.Ints(signers)
+	transcript := binary.BigEndian.AppendUint32(nil, 2)
+	for _, s := range signers {
+		transcript = binary.BigEndian.AppendUint32(transcript, uint32(s))
+		transcript = append(transcript, vec[s][:]...)
+	}
+	coeff := func(s int) *edwards25519.Scalar {
+		h := sha512.New()
+		h.Write([]byte("mixin-aggregate-coefficient-v1"))
+		h.Write(transcript)
+		h.Write(binary.BigEndian.AppendUint32(nil, uint32(s)))
+		h.Write(vec[s][:])
+		c, _ := edwards25519.NewScalar().SetUniformBytes(h.Sum(nil))
+		return c
+	}
+	ai, aj := coeff(i), coeff(j)
+	Tp, err := edwards25519.NewIdentityPoint().SetBytes(T[:])
+	if err != nil {
+		return nil, nil, nil, false
+	}
+	vanishes := edwards25519.NewIdentityPoint().ScalarMult(aj, Tp).Equal(edwards25519.NewIdentityPoint()) == 1
+	Xi, err := edwards25519.NewIdentityPoint().SetBytes(vec[i][:])
+	if err != nil {
+		return nil, nil, nil, false
+	}
+	A := edwards25519.NewIdentityPoint().ScalarMult(ai, Xi)
+	A.Add(A, edwards25519.NewIdentityPoint().ScalarMult(aj, Tp))
+	nh := sha512.Sum512(nonce)
+	r, _ := edwards25519.NewScalar().SetUniformBytes(nh[:])
+	R := edwards25519.NewIdentityPoint().ScalarBaseMult(r)
+	ch := sha512.New()
+	ch.Write(R.Bytes())
+	ch.Write(A.Bytes())
+	ch.Write(msg[:])
+	x, _ := edwards25519.NewScalar().SetUniformBytes(ch.Sum(nil))
+	y, err := edwards25519.NewScalar().SetCanonicalBytes(yi[:])
+	if err != nil {
+		return nil, nil, nil, false
+	}
+	S := edwards25519.NewScalar().MultiplyAdd(x, edwards25519.NewScalar().Multiply(ai, y), r)
+	var sig Signature
+	copy(sig[:32], R.Bytes())
+	copy(sig[32:], S.Bytes())
+	return &sig, vec, signers, vanishes
+}
+
 func vpC14Gen(t *rapid.T, maxN int) *vpC14Case {
 	c := &vpC14Case{base: vpSeed(t, 16, "seed")}
 	hv := vpHashFromTag(c.base, "shape", 0)
@@ -223,8 +290,8 @@ func TestVP_C14_aggregate(t *testing.T) {
 	if kit.Thorough() {
 		maxN = 300
 	}
-	col := kit.New(t, "C14", fmt.Sprintf("rapid: key vectors 1..%d (one in five with repeated keys), sorted signer subsets (single / all / random sizes, top index), seeds 32..80 bytes; honest AggregateSign must verify for exactly its arguments, then every applicable negative class of that run must fail in AggregateSign or AggregateVerify (unsorted, duplicated, out-of-range, negative index; other message; signer key replaced; vector permuted; signer added/removed/shifted; same keys re-laid-out at other indexes; subset signs for superset; wrong private key; rogue-key cancellation; signature bit flip); every acceptance is cross-checked with library-only arithmetic; non-trivial = >=2 signers; distinct by seed+n+signers", maxN))
-	col.Require("honest", "signers-single", "signers-all", "signers-top-index", "dup-keys", "unsorted", "duplicated", "out-of-range", "negative-index",
+	col := kit.New(t, "C14", fmt.Sprintf("rapid: key vectors 1..%d (one in five with repeated keys), sorted signer subsets (single / all / random sizes, top index), seeds 32..80 bytes; honest AggregateSign must verify for exactly its arguments, then every applicable negative class of that run must fail in AggregateSign or AggregateVerify (unsorted, duplicated, out-of-range incl. not in last position, negative index; a lone key holder forging for a set whose other member is a small-order point; other message; signer key replaced; vector permuted; signer added/removed/shifted; same keys re-laid-out at other indexes; subset signs for superset; wrong private key; rogue-key cancellation; signature bit flip); every acceptance is cross-checked with library-only arithmetic; non-trivial = >=2 signers; distinct by seed+n+signers", maxN))
+	col.Require("honest", "signers-single", "signers-all", "signers-top-index", "dup-keys", "unsorted", "duplicated", "out-of-range", "out-of-range-not-last", "small-order-member", "small-order-forgery-live", "negative-index",
 		"other-message", "key-replaced", "vector-permuted", "signer-added", "signer-removed", "signer-shifted", "relayout", "subset-for-superset",
 		"wrong-private", "rogue-key", "signature-bitflip")
 	kit.SetChecks(kit.N(500, 15000))
@@ -291,6 +358,35 @@ func TestVP_C14_aggregate(t *testing.T) {
 		vpC14SignMustFail(t, "negative signer index", c.privsFor(neg), c.publics, neg, c.seed, c.msg)
 		vpC14VerifyMustFail(t, "honest signature, negative index", sig, c.publics, neg, c.msg)
 		classes = append(classes, "negative-index")
+		// both defects at once: an index beyond the vector that is not the last
+		// element of the list (so the list is unsorted as well)
+		for _, o := range []int{c.n, c.n + rapid.IntRange(1, 1<<20).Draw(t, "beyond_inside")} {
+			front := append([]int{o}, c.signers...)
+			vpC14SignMustFail(t, "index beyond the vector before in-range ones", c.privsFor(front), c.publics, front, c.seed, c.msg)
+			vpC14VerifyMustFail(t, "honest signature, index beyond the vector before in-range ones", sig, c.publics, front, c.msg)
+			if k >= 2 {
+				mid := append([]int{}, c.signers[:k-1]...)
+				mid = append(mid, o, c.signers[k-1])
+				vpC14VerifyMustFail(t, "honest signature, index beyond the vector inside the list", sig, c.publics, mid, c.msg)
+			}
+		}
+		classes = append(classes, "out-of-range-not-last")
+		// a lone signer forging for a larger set whose other member is a point of
+		// small order (nobody holds its private key)
+		if c.n >= 2 {
+			j := (victim + 1 + rapid.IntRange(0, c.n-2).Draw(t, "small_order_at")) % c.n
+			for ti, T := range vpC14SmallOrder {
+				forged, vec, set, vanishes := vpC14LoneForgery(c.publics, victim, j, &c.privs[victim], T, append([]byte{byte(ti)}, c.seed...), c.msg)
+				if forged == nil {
+					continue
+				}
+				vpC14VerifyMustFail(t, fmt.Sprintf("one private key signing for signers %v whose other key is the small-order point %x", set, T[:4]), forged, vec, set, c.msg)
+				if vanishes {
+					classes = append(classes, "small-order-forgery-live")
+				}
+			}
+			classes = append(classes, "small-order-member")
+		}
 		vpC14VerifyMustFail(t, "honest signature, empty signer list", sig, c.publics, nil, c.msg)
 
 		// ---- message
